@@ -225,22 +225,22 @@ STORAGE_PROPS = {
     "C03": dict(main="proofs", monitor=mon_storage.C03, stateful=True, facts=facts.gen_pure_fns,
                 rel=st(opfields={"block": ["files", "files2", "proofs", "providers", "bank", "panic"]})),
     "C04": dict(main="payments", extra=("rns",), monitor=mon_storage.c04, facts=facts.gen_pure_fns,
-                rel=st(ops=["buyStorage", "setParams"], opfields={"postFile": ["bank", "gauges", "outcome"]}, queries=["rns.resolve"])),
+                rel=st(ops=["buyStorage", "setParams"], opfields={"postFile": ["bank", "gauges", "outcome"]}, queries=["rns.resolve", "priceCheck"])),
     "C05": dict(main="storage", extra=("payments", "forms", "mint", "rns", "notif", "filetree"), monitor=mon_storage.c05, panic=True,
                 rel=st(fields=["panic"], ops=["block"], opfields={"postFile": ["outcome", "files"]})),
     "C07": dict(main="plans", monitor=mon_storage.c07,
                 rel=st(fields=["payinfo"], ops=["postFile", "deleteFile"], opfields={"buyStorage": ["outcome"], "block": ["files", "files2"]},
-                       queries=["payInfo", "allPayInfo", "payData", "clientFreeSpace", "fileUploadCheck"])),
+                       queries=["payInfo", "allPayInfo", "payData", "clientFreeSpace", "fileUploadCheck", "storageStats", "networkSize"])),
     "C12": dict(main="payments", monitor=mon_storage.C12, stateful=True, facts=facts.gen_pure_fns,
                 rel=st(fields=["gauges"], opfields={"block": ["bank", "panic"], "postFile": ["bank"], "buyStorage": ["bank"]}, queries=["gauges"])),
     "C14": dict(main="forms", monitor=mon_storage.c14,
                 rel=st(fields=["attests", "reports"], ops=["attest", "report", "requestAttest", "requestReport"],
-                       queries=["attestation", "allAttestations", "report", "allReports"])),
+                       queries=["attestation", "allAttestations", "report", "allReports", "activeProviders"])),
     "C15": dict(main="collateral", monitor=mon_storage.c15,
                 rel=st(fields=["collateral", "params"], ops=["initProvider", "shutdownProvider", "setParams"], queries=["provider", "allProviders"])),
     "C17": dict(main="storage", monitor=mon_storage.c17, facts=facts.gen_pure_fns,
                 rel=st(fields=["files", "files2", "proofs", "keyshape"], opfields={"block": ["files", "files2", "proofs"]},
-                       queries=["file", "allFiles", "allFilesByMerkle", "allFilesByOwner", "openFiles", "proof", "allProofs", "proofsByAddress", "findFile"])),
+                       queries=["file", "allFiles", "allFilesByMerkle", "allFilesByOwner", "openFiles", "proof", "allProofs", "proofsByAddress", "findFile", "storeCount", "freeSpace", "activeProviders", "availableSpace"])),
 }
 
 for _pid, _c in STORAGE_PROPS.items():
